@@ -27,27 +27,40 @@ import (
 	"github.com/tigerwill90/fox"
 )
 
-const rule = "cases = (panic value in 13 kinds incl. wrapped http.ErrAbortHandler and net.OpError variants) x (response progress: nothing, informational header, final header, 101, partial body, flushed, one chunk streamed through ReadFrom / io.Copy from a source that then panics) x (handler kind: route, inner route middleware, route reached by ignoring a trailing slash, no-route, no-method, options) " +
+const rule = "cases = (panic value in 13 kinds incl. wrapped http.ErrAbortHandler and net.OpError variants) x (response progress: nothing, informational header, final header, 101, partial body, flushed, one chunk streamed through ReadFrom / io.Copy from a source that then panics) x (handler kind: route, inner route middleware, route reached by ignoring a trailing slash, route of a router mounted inside a route, no-route, no-method, options) " +
 	"x (credential header names in canonical, lower-case, upper-case and mixed capitalisation set directly in the header map, plus ordinary headers); the product is enumerated completely; " +
 	"plus panics inside Updates and View functions after every prefix of a base sequence, after every single step and after every ordered pair of the steps that add, empty or remove method roots, and panics raised by middleware constructors during 8 write entry points; distinct by the tuple; non-trivial always"
 
+// capture keeps the records themselves (as an asynchronous or batching slog handler does, through Record.Clone) and
+// renders them only when they are read: a record must keep describing its own request after later ones were logged.
 type capture struct {
 	mu   sync.Mutex
-	recs []string
+	kept []slog.Record
 }
 
 func (c *capture) Enabled(context.Context, slog.Level) bool { return true }
 func (c *capture) Handle(_ context.Context, r slog.Record) error {
-	var sb strings.Builder
-	sb.WriteString(r.Level.String() + " " + r.Message)
-	r.Attrs(func(a slog.Attr) bool {
-		sb.WriteString(" | " + a.Key + "=" + a.Value.String())
-		return true
-	})
 	c.mu.Lock()
-	c.recs = append(c.recs, sb.String())
+	c.kept = append(c.kept, r.Clone())
 	c.mu.Unlock()
 	return nil
+}
+
+// rendered formats the records kept so far.
+func (c *capture) rendered() []string {
+	c.mu.Lock()
+	defer c.mu.Unlock()
+	out := make([]string, 0, len(c.kept))
+	for _, r := range c.kept {
+		var sb strings.Builder
+		sb.WriteString(r.Level.String() + " " + r.Message)
+		r.Attrs(func(a slog.Attr) bool {
+			sb.WriteString(" | " + a.Key + "=" + a.Value.String())
+			return true
+		})
+		out = append(out, sb.String())
+	}
+	return out
 }
 func (c *capture) WithAttrs([]slog.Attr) slog.Handler { return c }
 func (c *capture) WithGroup(string) slog.Handler      { return c }
@@ -108,7 +121,7 @@ var values = []pv{
 }
 
 var progress = []string{"nothing", "informational", "header", "header-101", "partial-body", "flushed", "streamed-readfrom", "streamed-iocopy"}
-var kinds = []string{"route", "route-middleware", "route-ignored-slash", "noroute", "nomethod", "options"}
+var kinds = []string{"route", "route-middleware", "route-ignored-slash", "nested-router", "noroute", "nomethod", "options"}
 
 var sensitive = []string{"Authorization", "Proxy-Authorization", "Cookie", "Set-Cookie", "X-CSRF-Token", "X-Vault-Token"}
 
@@ -197,6 +210,14 @@ func build(cap *capture) *fox.Router {
 	f.MustHandle("GET", "/ig/{id}/", func(c fox.Context) { doPanic(c); ok(c) }, fox.WithIgnoreTrailingSlash(true))
 	f.MustHandle("POST", "/only-post", ok)
 	f.MustHandle("GET", "/fine/{a}", ok)
+	// a second router mounted inside a route of the first (it gets the outer context's writer): the inner handler starts
+	// the response and panics, Recovery sits on the outer router only
+	inner, err := fox.New()
+	if err != nil {
+		panic(err)
+	}
+	inner.MustHandle("GET", "/nested/{id}/x/*{rest}", func(c fox.Context) { doPanic(c); ok(c) })
+	f.MustHandle("GET", "/nested/{id}/x/*{rest}", func(c fox.Context) { inner.ServeHTTP(c.Writer(), c.Request()) })
 	return f
 }
 
@@ -242,6 +263,8 @@ func one(run *kit.Run, f *fox.Router, cap *capture, v pv, pr, kind, hname, secre
 		path, wantRoute, wantParams = "/m/9", "/m/{id}", []string{"id=9"}
 	case "route-ignored-slash":
 		path, wantRoute, wantParams = "/ig/5", "/ig/{id}/", []string{"id=5"}
+	case "nested-router":
+		path, wantRoute, wantParams = "/nested/7/x/a/b", "/nested/{id}/x/*{rest}", []string{"id=7", "rest=a/b"}
 	case "noroute":
 		path, wantRoute, wantParams = "/nothing/here", "NoRouteHandler", nil
 	case "nomethod":
@@ -256,7 +279,7 @@ func one(run *kit.Run, f *fox.Router, cap *capture, v pv, pr, kind, hname, secre
 	req = req.WithContext(context.WithValue(context.Background(), planKey{}, pl))
 	u := &under{h: http.Header{}}
 	cap.mu.Lock()
-	cap.recs = cap.recs[:0]
+	cap.kept = cap.kept[:0]
 	cap.mu.Unlock()
 	var escaped any
 	func() {
@@ -298,7 +321,9 @@ func one(run *kit.Run, f *fox.Router, cap *capture, v pv, pr, kind, hname, secre
 	}
 	// diagnostic record
 	cap.mu.Lock()
-	recs := append([]string(nil), cap.recs...)
+	cap.mu.Unlock()
+	recs := cap.rendered()
+	cap.mu.Lock()
 	cap.mu.Unlock()
 	if v.abort {
 		if len(recs) != 0 {
@@ -580,9 +605,15 @@ func txnPanics(run *kit.Run) {
 // parameters, ordinary header and credential; every request gets exactly one 500 of its own and exactly one diagnostic
 // record that names its own route, parameters, request line and ordinary header, and no credential of anybody.
 func concurrentPanics(run *kit.Run) {
+	// first strictly one after the other (records are only read at the end: each must still describe its own
+	// request), then from many goroutines at once
+	panicsFrom(run, 1)
+	panicsFrom(run, 4*runtime.GOMAXPROCS(0))
+}
+
+func panicsFrom(run *kit.Run, workers int) {
 	cap := &capture{}
 	f := build(cap)
-	workers := 4 * runtime.GOMAXPROCS(0)
 	per := run.Pick(100, 2000)
 	var wg sync.WaitGroup
 	var bad atomic.Pointer[string]
@@ -619,7 +650,7 @@ func concurrentPanics(run *kit.Run) {
 	wg.Wait()
 	total := workers * per
 	seen := make(map[int]int, total)
-	for _, rec := range cap.recs {
+	for _, rec := range cap.rendered() {
 		k := strings.Index(rec, "boom-")
 		if k < 0 {
 			note("a diagnostic record names no panic value: %s", head(rec))
@@ -631,7 +662,7 @@ func concurrentPanics(run *kit.Run) {
 		if strings.Contains(rec, "secret-") {
 			note("the record of request %d contains a credential value: %s", id, head(rec))
 		}
-		for _, want := range []string{fmt.Sprintf("GET /p/id%d/x/rest%d?q=1 HTTP/1.1", id, id), fmt.Sprintf("plain-%d-", id), "route=/p/{id}/x/*{rest}", fmt.Sprintf("id%d", id), fmt.Sprintf("rest%d", id)} {
+		for _, want := range []string{fmt.Sprintf("GET /p/id%d/x/rest%d?q=1 HTTP/1.1", id, id), fmt.Sprintf("plain-%d-", id), "route=/p/{id}/x/*{rest}", fmt.Sprintf("id=id%d ", id), fmt.Sprintf("rest=rest%d]", id)} {
 			if !strings.Contains(rec, want) {
 				note("the record of request %d (with %d requests in flight) lacks %q - it describes another request: %s", id, workers, want, head(rec))
 			}
@@ -644,9 +675,9 @@ func concurrentPanics(run *kit.Run) {
 		}
 	}
 	if m := bad.Load(); m != nil {
-		run.Violate("concurrent-panics", *m, nil)
+		run.Violate(fmt.Sprintf("panics-from-%d-goroutines", workers), *m, nil)
 	}
-	run.Case("concurrent-panics", true)
+	run.Case(fmt.Sprintf("panics-from-%d-goroutines", workers), true)
 	run.Eval(int64(total))
 	run.Count("concurrent_panicking_requests", int64(total))
 }
